@@ -145,7 +145,7 @@ theorem remove_input_graph (ti : TypeInfo) (p : Program) (hok : RemInOK x q p = 
   have hp' := removeInputOne_eq x q p
   have H : SimHyp ti (ti.removeInput x q) p (removeInputOne x q p) id (FRem x q) (fun _ k => dropB x q k)
       (SRem x q) (fun _ _ v => v) id (fun c => pipeOKRem x q c = true) (fun _ _ => True)
-      (fun _ _ => True) (fun _ => True) := by
+      (fun _ _ => True) (fun _ => True) (fun _ _ => true) := by
     refine { hfind1 := ?_, hfind0 := ?_, hrel := fun _ _ _ _ => trivial, hF := ?_, hcalls := ?_,
              hGid := ?_, hGdec := ?_, hfirst := ?_, hO0 := ?_, hOs := ?_, o0 := ?_, o0s := ?_,
              o1 := ?_, o2 := ?_, c5 := ?_, c6 := ?_, c7 := ?_ }
@@ -164,6 +164,7 @@ theorem remove_input_graph (ti : TypeInfo) (p : Program) (hok : RemInOK x q p = 
       exact ⟨rfl, rfl, rfl, rfl⟩
     · intro pipe hg
       have hparts := pipeOKRem_parts x q hg
+      rw [show (pipe.calls.filter (fun k => (fun (_ : Callable) (_ : String) => true) pipe k.id)) = pipe.calls from filter_true' _]
       unfold FRem
       cases hparts.1 with
       | inl h => simp [h]
@@ -179,7 +180,9 @@ theorem remove_input_graph (ti : TypeInfo) (p : Program) (hok : RemInOK x q p = 
     · intros; trivial
     · intros; trivial
     · -- c5
-      intro pipe self sib k d id hg _ _ hk hd
+      intro pipe self sib sib' k d id hg _ _ hag _ hk hd
+      have hs' := sibAgree_true hag
+      subst hs'
       have hparts := pipeOKRem_parts x q hg
       have hkm := (call_mem pipe id k hk).1
       have hdname := find_name p _ d hd
@@ -213,7 +216,9 @@ theorem remove_input_graph (ti : TypeInfo) (p : Program) (hok : RemInOK x q p = 
         rw [this, resolveBinds_congr _ _ _ (lookupRef self sib) _ hper]
         simp [SRem, hdn]
     · -- c6
-      intro d ins sib hg hp _ _
+      intro d ins sib sib' hg hp _ _ hag
+      have hs' := sibAgree_true hag
+      subst hs'
       have hparts := pipeOKRem_parts x q hg
       have hOsib : Osib p (fun _ _ v => v) d sib = sib := by funext i; rfl
       have hret : (FRem x q d).ret = d.ret := rfl
@@ -229,7 +234,9 @@ theorem remove_input_graph (ti : TypeInfo) (p : Program) (hok : RemInOK x q p = 
       exact lookupRef_rem x q d ins sib r
         (fun hn => hparts.2.2.2.2.1 hn r (mem_graphRefs_ret d bd hbd r hr))
     · -- c7
-      intro d ins sib hg hp _ _
+      intro d ins sib sib' hg hp _ _ hag
+      have hs' := sibAgree_true hag
+      subst hs'
       have hparts := pipeOKRem_parts x q hg
       have hOsib : Osib p (fun _ _ v => v) d sib = sib := by funext i; rfl
       have hret : (FRem x q d).retain = d.retain := rfl
@@ -243,11 +250,11 @@ theorem remove_input_graph (ti : TypeInfo) (p : Program) (hok : RemInOK x q p = 
     funext n
     simp only [nodeMap, remNodeIn, SRem, id, List.map_id]
     split <;> rfl
-  rw [← hmap]
+  rw [← deepGraphKeep_true ti p, ← hmap]
   apply sim_graph H
   · intro t ht
     have htop := by simpa [ht] using htopok
-    refine ⟨?_, ?_, htop, trivial⟩
+    refine ⟨?_, ?_, htop, trivial, rfl⟩
     · rw [hp']; simp [ht]
     · simp [FRem, topPipe, Ne.symm hx]
   · intro ht; rw [hp']; simp [ht]
